@@ -39,12 +39,31 @@ type collector struct {
 	mu   sync.Mutex
 	msgs [][]byte
 	sigs int
+	// every message as handed over (the emitter's own slice) next to the copy taken at that moment: a real
+	// consumer reads the bytes later (relay, port queue), so they must not change after the hand-over
+	orig, snap [][]byte
 }
 
 func (c *collector) add(b []byte) {
 	c.mu.Lock()
-	c.msgs = append(c.msgs, append([]byte(nil), b...))
+	cp := append([]byte(nil), b...)
+	c.msgs = append(c.msgs, cp)
+	if len(c.orig) < 20000 {
+		c.orig, c.snap = append(c.orig, b), append(c.snap, cp)
+	}
 	c.mu.Unlock()
+}
+
+// modified reports the first message whose bytes changed after it was handed over.
+func (c *collector) modified() (int, []byte, []byte) {
+	c.mu.Lock()
+	defer c.mu.Unlock()
+	for i := range c.orig {
+		if string(c.orig[i]) != string(c.snap[i]) {
+			return i, c.snap[i], c.orig[i]
+		}
+	}
+	return -1, nil, nil
 }
 func (c *collector) sig() { c.mu.Lock(); c.sigs++; c.mu.Unlock() }
 func (c *collector) take() ([][]byte, int) {
@@ -308,6 +327,14 @@ func execW1(t *testing.T, seed uint64, c *w1Case, cfg config.Config, script []mo
 			} else if v := m.Unplug(ms); v != nil {
 				fail(len(script), v)
 			}
+		}
+		if i, was, is := col.modified(); i >= 0 && ex.vio == nil {
+			props := []string{prop}
+			if m.PanicSeen && prop != "C13" {
+				props = append(props, "C13")
+			}
+			fail(len(script), &model.Violation{Props: props, Clause: "message_modified_after_emission",
+				Detail: fmt.Sprintf("message %d of the run was handed over as % x; the same slice later reads % x (a consumer that is a few messages behind, like the port queue, receives the changed bytes)", i, was, is)})
 		}
 		addCounts(ex.probes, m.Probes)
 		close(sigStop)
